@@ -626,7 +626,7 @@ impl Check for C01 {
             Family::enumerate("types", 22 * 14 * 2 * 2, 1, types_case),
             // (d) containment / alias / inheritance cycles: the C05 enumerators, judged here only for
             // "a verdict within the bound" (a hang is seen by the watchdog)
-            Family::enumerate("alias-graphs", crate::c05::ALIAS_TOTAL, tier.pick(13, 3), |cx, i| {
+            Family::enumerate("alias-graphs", crate::c05::ALIAS_TOTAL, tier.pick(31, 7), |cx, i| {
                 let (p, cyclic) = crate::c05::alias_program(i.index());
                 let texts = p.plain();
                 cx.nontrivial = true;
